@@ -237,7 +237,7 @@ def observe(tree, lifecycle=False):
     if issues:
         out["lifecycle"] = "issues"
     if lifecycle:
-        out["lifecycle"] = lifecycle_check(cfg, tree, data, out["ids"], atoms) if not issues else "issues"
+        out["lifecycle"] = lifecycle_check(cfg, tree, data, out["ids"], atoms, ctx) if not issues else "issues"
     return out
 
 
@@ -261,9 +261,10 @@ def _value_at(v, path):
     return v
 
 
-def lifecycle_check(cfg, tree, data, ids, atoms):
+def lifecycle_check(cfg, tree, data, ids, atoms, ctx=None):
     """C11: the kept source is the merged tree; evaluating it again gives an equal, disjoint result;
-    mutating a result never changes the source or later evaluations."""
+    mutating a result never changes the source or later evaluations - with a fresh evaluation context and with
+    the very context object that evaluated the first result (`eval_ctx=` is part of the public interface)."""
     from awesomeyaml.config import Config
     if not tree:
         return "ok"      # an empty config keeps no source at all (Config.__init__ skips evaluation): nothing to re-evaluate
@@ -291,6 +292,15 @@ def lifecycle_check(cfg, tree, data, ids, atoms):
     cfg3 = Config(src)
     if plain_result(cfg3, [], ids3, issues3) != data:
         return "mutation-reached-later-evaluation"
+    if ctx is not None:
+        ctx.vsteps = 0
+        del ctx.vlog[:]
+        cfg4 = Config(src, eval_ctx=ctx)         # the context that produced the (now mutated) first result
+        ids4 = []
+        if plain_result(cfg4, [], ids4, []) != data:
+            return "same-context-reevaluation-differs"
+        if {i for p, i in _raw_ids(cfg4) if p not in atoms} & first:
+            return "same-context-results-share-objects"
     ids2b = []
     if plain_result(cfg2, [], ids2b, []) != data:
         return "mutation-reached-other-result"
